@@ -550,7 +550,9 @@ def program_equivalence(prog1, prog2, compare_params=True, atol=1e-6, rtol=0):
             # compare parameter by parameter: an operation may have several array parameters of
             # different shapes (e.g. the covariance matrix and means vector of ``Gaussian``)
             p_match = len(n1["p"]) == len(n2["p"]) and all(
-                np.shape(a) == np.shape(b) and np.allclose(a, b, atol=atol, rtol=rtol)
+                np.shape(a) == np.shape(b)
+                and np.allclose(a, b, atol=atol, rtol=rtol)
+                and np.allclose(b, a, atol=atol, rtol=rtol)  # numpy's relative test is not symmetric
                 for a, b in zip(n1["p"], n2["p"])
             )
             return p_match and n1["m"] == n2["m"]
